@@ -460,6 +460,12 @@ func (g *goFile) newf(recv, name string) (string, error) {
 			return fmt.Sprintf("(%s, %s)", tag, pnum(m[1])), nil
 		}
 	}
+	// List(Void): capnp.NewVoidList allocates nothing and returns no error
+	if len(st) == 3 && rx(`^l:=`+ident+`\.NewVoidList\(s\.Struct\.Segment\(\),n\)$`).MatchString(st[0]) && st[2] == "returnl,err" {
+		if m := rx(`^err:=s\.Struct\.SetPtr\(` + num + `,l\.List\.ToPtr\(\)\)$`).FindStringSubmatch(st[1]); m != nil {
+			return fmt.Sprintf("(%s, %s)", tag, pnum(m[1])), nil
+		}
+	}
 	return "", fnErr{recv + "." + name, "unrecognised New: " + strings.Join(st, " ; ")}
 }
 
